@@ -37,8 +37,10 @@ func ZZC18(n int) {
 		p, rt := zzGuard(func() { r.Handle("/fresh", &hnd{id: 99}, nil, "TRACE") })
 		zzv.Assert(p && !rt, "trace:manual-registration-accepted")
 		for _, rtm := range m.routes {
-			_, w2 := zzServe(r, zzReq("OPTIONS", zzWitness(rtm.p)))
-			zzv.Assert(zzContains(zzSplitAllow(w2.h.Get("Allow")), "TRACE"), "trace:missing-from-an-Allow-set")
+			o2, w2 := zzServe(r, zzReq("OPTIONS", zzWitness(rtm.p)))
+			if o2.node { // (a witness path may miss its route when an arbitrary user interceptor rejects the value)
+				zzv.Assert(zzContains(zzSplitAllow(w2.h.Get("Allow")), "TRACE"), "trace:missing-from-an-Allow-set")
+			}
 		}
 		_, w3 := zzServe(r, zzReq("OPTIONS", "*"))
 		zzv.Assert(zzContains(zzSplitAllow(w3.h.Get("Allow")), "TRACE"), "trace:missing-from-the-Allow-set-of-OPTIONS-*")
